@@ -102,9 +102,27 @@ def make_worlds(numpy, regions, quick, rng):
     return worlds
 
 
-def make_catalog(world, events, numpy, shuffle_rng=None):
+_F4 = {}
+
+
+def f4_catalog_class(numpy):
+    """a catalog type whose event table holds coordinates and magnitudes in single precision (the documented way of
+    defining a catalog format is to subclass and set dtype)"""
+    if 'cls' not in _F4:
+        from csep.core.catalogs import CSEPCatalog
+
+        class SinglePrecisionCatalog(CSEPCatalog):
+            dtype = numpy.dtype([('id', 'S256'), ('origin_time', '<i8'), ('latitude', '<f4'), ('longitude', '<f4'),
+                                 ('depth', '<f4'), ('magnitude', '<f4')])
+        _F4['cls'] = SinglePrecisionCatalog
+    return _F4['cls']
+
+
+def make_catalog(world, events, numpy, shuffle_rng=None, f4=False):
     """events = list of (concrete cell idx or -1, concrete bin or -1, variant)."""
     from csep.core.catalogs import CSEPCatalog
+    if f4:
+        CSEPCatalog = f4_catalog_class(numpy)
     data = []
     for i, (c, b, var) in enumerate(events):
         if c < 0:
@@ -205,10 +223,15 @@ def run(chk, replay=None):
         cat_abs = case['cat']
         events = [(world.cells[c] if c else -1, world.bins[k] if k else -1, variant + 3 * i)
                   for i, (c, k) in enumerate(cat_abs)]
-        cat = make_catalog(world, events, numpy)
+        # every seventh realisation stores the events in single precision (values on an edge are then below it by rounding
+        # about half of the time, and must still be counted in the bin / cell the edge opens)
+        f4 = (variant % 7 == 3) and not world.quad
+        cat = make_catalog(world, events, numpy, f4=f4)
         obs = observe(world, cat, numpy)
         chk.count(5)
         bad = judge(world, case, obs)
+        if f4 and bad:
+            bad = [(fn + ' (single-precision catalog)', why, got) for fn, why, got in bad]
         alt = getattr(world, 'alt', None)
         if alt is not None and not bad:
             # the same catalog object re-bound to a region over the same cells in another order (and gridded again):
